@@ -1,0 +1,74 @@
+// Copyright 2026 Juan Pablo Tosso and the OWASP Coraza contributors
+// SPDX-License-Identifier: Apache-2.0
+
+//go:build verif
+
+package corazawaf
+
+import (
+	"github.com/corazawaf/coraza/v3/types"
+	"github.com/corazawaf/coraza/v3/types/variables"
+)
+
+// Verification hooks (build tag "verif" only). A conformance harness installs these
+// callbacks to record the linearization points of a transaction; they are nil by default.
+var (
+	// VerifPhase is called when RuleGroup.Eval starts ("begin") and finishes ("end") a phase.
+	VerifPhase func(tx *Transaction, phase int, what string)
+	// VerifRule is called once per iteration of the rule loop that is not filtered out by the
+	// rule's phase, with the branch the loop took.
+	VerifRule func(tx *Transaction, phase int, idx int, r *Rule, branch string)
+	// VerifOp is called after every operator evaluation.
+	VerifOp func(tx *Transaction, r *Rule, chainLevel int, v variables.RuleVariable, key, value string, matched bool)
+	// VerifAct is called before every action evaluation at rule-evaluation time.
+	VerifAct func(tx *Transaction, r *Rule, name string, kind string)
+	// VerifMatch is called when a rule is recorded as matched.
+	VerifMatch func(tx *Transaction, r *Rule, mds []types.MatchData)
+	// VerifTf is called for every transformation-cache hit ("hit"), partial hit ("prefix")
+	// and fill ("fill") with the cache key components and the value going in and out.
+	VerifTf func(r *Rule, what string, keyPtr uintptr, argIdx int, v variables.RuleVariable, tfID int, in, out string)
+	// VerifCall is called when a public Transaction method returns.
+	VerifCall func(tx *Transaction, name string)
+)
+
+func verifPhase(tx *Transaction, phase types.RulePhase, what string) {
+	if VerifPhase != nil {
+		VerifPhase(tx, int(phase), what)
+	}
+}
+
+func verifRule(tx *Transaction, phase types.RulePhase, idx int, r *Rule, branch string) {
+	if VerifRule != nil {
+		VerifRule(tx, int(phase), idx, r, branch)
+	}
+}
+
+func verifOp(tx *Transaction, r *Rule, chainLevel int, v variables.RuleVariable, key, value string, matched bool) {
+	if VerifOp != nil {
+		VerifOp(tx, r, chainLevel, v, key, value, matched)
+	}
+}
+
+func verifAct(tx *Transaction, r *Rule, name string, kind string) {
+	if VerifAct != nil {
+		VerifAct(tx, r, name, kind)
+	}
+}
+
+func verifMatch(tx *Transaction, r *Rule, mds []types.MatchData) {
+	if VerifMatch != nil {
+		VerifMatch(tx, r, mds)
+	}
+}
+
+func verifTf(r *Rule, what string, keyPtr *byte, argIdx int, v variables.RuleVariable, tfID int, in, out string) {
+	if VerifTf != nil {
+		VerifTf(r, what, uintptrOf(keyPtr), argIdx, v, tfID, in, out)
+	}
+}
+
+func verifCall(tx *Transaction, name string) {
+	if VerifCall != nil {
+		VerifCall(tx, name)
+	}
+}
